@@ -6,7 +6,8 @@ CONSTANTS
   NearDepth = 2
   DeepDepth = 3
   HierDepth = 3
-  XDepth = 2
+  XDepth = 1
+  Wide = TRUE
   EmitCases = FALSE
 INIT Init
 NEXT Next
